@@ -32,6 +32,7 @@ class LeafSpec:
     min_rows: int | None = None  # None -> exact
     max_rows: Any = "exact"  # "exact" -> len(rows); None -> unbounded
     special: str | None = None  # "doomed" | "identity"
+    leaf_name: str | None = None  # name given to the LeafRelation if different from the spec's key
 
     def row_dicts(self):
         return tuple(dict(zip(self.cols, r)) for r in self.rows)
@@ -226,7 +227,7 @@ class Ctx:
             rows = [{A.tag(c): v for c, v in zip(s.cols, r)} for r in s.rows]
             payload = payload_factory(s, rows) if payload_factory else iteration.RowSequence(rows)
             self.leaf_payloads[s.name] = payload
-            return LeafRelation(eng, cols, payload, name=s.name, min_rows=lo, max_rows=hi)
+            return LeafRelation(eng, cols, payload, name=s.leaf_name or s.name, min_rows=lo, max_rows=hi)
         table = db().table_for(("leaf", s.name, s.cols, s.rows), s.name, s.cols, s.row_dicts())
         payload = sql.Payload(
             from_clause=table, columns_available={A.tag(c): table.columns[c] for c in s.cols}
